@@ -15,6 +15,8 @@ def concrete_hash(hasher: str, k: int, model: Dict[str, int]) -> int:
         return k
     if hasher == 'samebin':
         return 1 + (k << 20)
+    if hasher == 'mixed':
+        return 1 + ((k & 3) << 20)
     if hasher == 'split':
         return 1 + (k << 6)
     if hasher == 'highbits':
@@ -56,6 +58,8 @@ def confirm(chk: C.Check, prop: str, sc: Scenario, f: Finding) -> None:
     """native replay of the finding's concrete model; prints VIOLATION only if it reproduces"""
     src = open(native.os.path.join(C.VERIF, 'native', 'seq_replay.rs')).read()
     args = replay_args(sc, f)
+    if f.kind == 'dropped-under-guard':
+        args.append('holdrefs=1')       # lookups keep their result under one long-lived guard and re-read it at the end
     desc = 'scenario %s: %s\noperations: %s\nsolver model: %s\ntrace:\n  %s' % (f.scenario, f.what, ' '.join(args), f.model, '\n  '.join(f.trace[-12:]))
     outcomes = []
     for release in (False, True):
